@@ -43,6 +43,7 @@ FIXES = [
     ("C01", "fix: break and recurse inside a named function body", "X inside @f|...; was a silent no-op (@f|1X2;@f; left 1 2 instead of returning with 1) and x printed the stack: the body was parsed with FunctionCall as parent while the lowering tests FunctionDef"),
     ("C02", "fix: a string literal that ends in a lone backslash", "‛a\\ with dictionary compression off emitted stack.append(\"a\\\") (unterminated string literal); with compression on the backslash was silently dropped"),
     ("C02", "fix: the template of ¨…", "the template of ¨… had a positional argument after a keyword argument: every program containing ¨… failed to compile"),
+    ("C02", "fix: incomplete \\x \\u \\U \\N escapes in string literals", "a back-quoted / two-character string containing a backslash followed by x, u, U or N without the digits / name Python requires (`\\x`, ‛\\u, `\\N{`) was lowered to a Python literal that does not compile (SyntaxError: truncated \\xXX escape); found by a sub-agent's differential corpus, reproduced by C02 after adding escape-sequence payloads"),
 ]
 
 
